@@ -438,6 +438,11 @@ func updateLocation(
 	if filters.RequestRedirect != nil {
 		ret, rewrite := createReturnAndRewriteConfigForRedirectFilter(filters.RequestRedirect, listenerPort, path)
 		if rewrite.MainRewrite != "" {
+			// an internal location is entered with its own path as the URI: go back to the URI of the request first,
+			// as for URLRewrite, so that the path modifier is applied to (and the client redirected to) the request's path.
+			if location.Type == http.InternalLocationType {
+				location.Rewrites = append(location.Rewrites, "^ $request_uri")
+			}
 			location.Rewrites = append(location.Rewrites, rewrite.MainRewrite)
 		}
 		location.Return = ret
